@@ -13,6 +13,11 @@ NA_FIXED = {
 }
 
 CLAIMS = {
+    'C11': dict(
+        technique="static write-set analysis of the add paths (MIR mutation summaries + linear normal forms of positions), who-may-read rule for the decoders, typed-HIR decision atoms for accessor and shortcut",
+        text="Decides the bookkeeping clause: each add writes exactly {shard at pos, bit pos, counter+1} with pos = base + index and no per-round state flowing into positions or stored bytes, so the state a decode sees is a function of the SET of added shards (all permutations coincide); decoders read only decode_begin's (store, counts, bitmap); given originals are never exposed; a complete set of originals returns the untouched (empty) result.",
+        note="Not decided: that a superset of shards reconstructs the same bytes (locator-polynomial algebra, C01 not applicable). Shape rules fail closed on a restructured add path.",
+        design="§4 C11"),
     'C05': dict(
         technique="static reset-completeness (MIR mutation summaries x dominance), typed-HIR event-order analysis with linear normal forms for the zero-before-truncated-IFFT contract and decoder buffer tiling, must-pass-through for constructor hand-over, reachability of hidden inputs over the call graph",
         text="Decides the structural prerequisites of history independence on every path: explicit reset rewrites every field (new fields reported by name); Drop => implicit reset clears all per-round fields; each of the 5 truncated IFFTs is preceded by zeroing of exactly its tail on the same buffer; the decoder's region operations tile the whole work buffer before the first transform; constructors pass taken-over working space through reset; no static/thread-local/clock input is reachable. Fresh (zero) buffers hide every one of these omissions from the tests.",
